@@ -410,18 +410,24 @@ def parse_caching_function(fn, cache_table, compute, hc_params, hc_kw, key_expr)
 
 
 def parse_can_hash(fn):
+    """`if issubclass(cls, (A, B, ...)): return True; return False`  or  `return issubclass(cls, (A, B, ...))`
+    -> the accepted class names (whether each of them is a VALUE in the key is decided in Coq)"""
     body = body_wo_doc(fn)
-    ok = (len(body) == 2 and isinstance(body[0], ast.If) and not body[0].orelse and len(body[0].body) == 1
-          and isinstance(body[0].body[0], ast.Return) and isinstance(body[0].body[0].value, ast.Constant)
-          and body[0].body[0].value.value is True and isinstance(body[1], ast.Return)
-          and isinstance(body[1].value, ast.Constant) and body[1].value.value is False)
-    if ok:
+    t = None
+    if (len(body) == 2 and isinstance(body[0], ast.If) and not body[0].orelse and len(body[0].body) == 1
+            and isinstance(body[0].body[0], ast.Return) and isinstance(body[0].body[0].value, ast.Constant)
+            and body[0].body[0].value.value is True and isinstance(body[1], ast.Return)
+            and isinstance(body[1].value, ast.Constant) and body[1].value.value is False):
         t = body[0].test
-        ok = (isinstance(t, ast.Call) and is_name(t.func, "issubclass") and len(t.args) == 2 and is_name(t.args[0], "cls")
-              and isinstance(t.args[1], ast.Tuple) and all(is_name(e) for e in t.args[1].elts))
+    elif len(body) == 1 and isinstance(body[0], ast.Return):
+        t = body[0].value
+    ok = (t is not None and isinstance(t, ast.Call) and is_name(t.func, "issubclass") and len(t.args) == 2
+          and not t.keywords and is_name(t.args[0], "cls")
+          and ((isinstance(t.args[1], ast.Tuple) and all(is_name(e) for e in t.args[1].elts)) or is_name(t.args[1])))
     if not ok:
-        bad(fn, "can_hash_optimize is not `if issubclass(cls, (A, B, ...)): return True; return False`")
-    return [e.id for e in body[0].test.args[1].elts]
+        bad(fn, "can_hash_optimize is not `issubclass(cls, (A, B, ...))` (returned directly or through if/return True/False)")
+    x = t.args[1]
+    return [e.id for e in x.elts] if isinstance(x, ast.Tuple) else [x.id]
 
 
 # --------------------------------------------------------------------------------------
